@@ -858,6 +858,69 @@ def check_C03(tier, seed):
     return out
 
 
+def grammar_wf_check(tier, work):
+    """C17, grammar half: generated TUs with undeclared symbols (and well-formed controls)."""
+    variants = []
+    base_rules = [('S', ['A', 'a']), ('S', ['b']), ('A', ['a', 'A']), ('A', [])]
+
+    def add(name, nterms, terms, root, rules, objs_nt, objs_t):
+        variants.append({'id': name, 'nterms': nterms, 'terms': terms, 'root': root, 'rules': [{'l': l, 'r': r} for l, r in rules], 'objs_nt': objs_nt, 'objs_t': objs_t})
+    add('ok', ['S', 'A'], ['a', 'b'], 'S', base_rules, ['S', 'A'], ['a', 'b'])
+    add('ok_unused', ['S', 'A', 'U'], ['a', 'b', 'q'], 'S', base_rules, ['S', 'A', 'U'], ['a', 'b', 'q'])
+    add('undeclared_term_in_rule', ['S', 'A'], ['a'], 'S', base_rules, ['S', 'A'], ['a', 'b'])
+    add('undeclared_nterm_in_rule', ['S'], ['a', 'b'], 'S', base_rules, ['S', 'A'], ['a', 'b'])
+    add('undeclared_lhs', ['S'], ['a', 'b'], 'S', [('S', ['a']), ('A', ['b'])], ['S', 'A'], ['a', 'b'])
+    add('undeclared_root', ['A'], ['a', 'b'], 'S', [('A', ['a'])], ['S', 'A'], ['a', 'b'])
+    add('undeclared_term_last', ['S', 'A'], ['a', 'b'], 'S', base_rules + [('A', ['a', 'b', 'c'])], ['S', 'A'], ['a', 'b', 'c'])
+    add('undeclared_only_in_unreachable_rule', ['S', 'A', 'U'], ['a', 'b'], 'S', base_rules + [('U', ['z'])], ['S', 'A', 'U'], ['a', 'b', 'z'])
+    add('empty_nterm_name', ['S', ''], ['a', 'b'], 'S', [('S', ['a'])], ['S', ''], ['a', 'b'])
+    items = []
+    jobs = []
+    inc = os.path.join(vlib.REPO, 'include')
+    for v in variants:
+        ntv = {n: 'n%d' % i for i, n in enumerate(v['objs_nt'])}
+        tv = {t: 't%d' % i for i, t in enumerate(v['objs_t'])}
+        decl = ['#include <ctpg/ctpg.hpp>', '#include <cstdio>', '#include <stdexcept>', 'using namespace ctpg;']
+        body = []
+        for n, var in ntv.items():
+            body.append('nterm<int> %s("%s");' % (var, n))
+        for t, var in tv.items():
+            body.append('char_term %s(\'%s\');' % (var, t))
+        rl = ['%s(%s) >= [](auto&&...) { return 0; }' % (ntv[r['l']], ', '.join(ntv[x] if x in ntv else tv[x] for x in r['r'])) for r in v['rules']]
+        pexpr = 'parser(%s, terms(%s), nterms(%s), rules(%s))' % (ntv[v['root']], ', '.join(tv[t] for t in v['terms']), ', '.join(ntv[n] for n in v['nterms']), ', '.join(rl))
+        rt = decl + ['int main() { try {'] + ['  ' + b for b in body] + ['  auto* p = new auto(%s); (void)p; printf("CONSTRUCTED\\n"); return 0;' % pexpr,
+                                                                       '} catch (const std::exception& e) { printf("THREW %s\\n", e.what()); return 0; } }']
+        ct = decl + ['constexpr ' + b for b in body] + ['constexpr auto p = %s;' % pexpr, 'int main() { return 0; }']
+        sp = os.path.join(work, 'wf_' + v['id'])
+        open(sp + '_rt.cpp', 'w').write('\n'.join(rt) + '\n')
+        open(sp + '_ct.cpp', 'w').write('\n'.join(ct) + '\n')
+        jobs.append((v, 'rt', lambda sp=sp: subprocess.run('g++ -std=c++17 -I%s %s_rt.cpp -o %s_rt && (ulimit -s unlimited; %s_rt)' % (inc, sp, sp, sp), shell=True, capture_output=True, text=True, timeout=900)))
+        jobs.append((v, 'ct', lambda sp=sp: subprocess.run(['g++', '-std=c++17', '-fsyntax-only', '-I' + inc, sp + '_ct.cpp'], capture_output=True, text=True, timeout=900)))
+        jobs.append((v, 'ctc', lambda sp=sp: subprocess.run(['clang++', '-std=c++17', '-fsyntax-only', '-fconstexpr-steps=500000000', '-I' + inc, sp + '_ct.cpp'], capture_output=True, text=True, timeout=900)))
+    rs = vlib.run_parallel([j[2] for j in jobs])
+    by = collections.defaultdict(dict)
+    for (v, kind, _), r in zip(jobs, rs):
+        by[v['id']][kind] = r
+    for v in variants:
+        r = by[v['id']]
+        if r['rt'].returncode != 0 and 'CONSTRUCTED' not in r['rt'].stdout and 'THREW' not in r['rt'].stdout:
+            raise Infra('well-formedness TU %s did not build/run: %s' % (v['id'], (r['rt'].stderr or r['rt'].stdout)[-600:]))
+        ct_errs = [r[k].stderr for k in ('ct', 'ctc') if r[k].returncode != 0]
+        for e in ct_errs:
+            if 'constant expression' not in e and 'constexpr' not in e:
+                raise Infra('compile-time TU %s failed for an unrelated reason: %s' % (v['id'], e[:600]))
+        items.append({'id': v['id'], 'nterms': v['nterms'], 'terms': v['terms'], 'root': v['root'], 'rules': v['rules'],
+                      'constructed': 'CONSTRUCTED' in r['rt'].stdout, 'threw': r['rt'].stdout.strip()[-80:], 'ct_ok': r['ct'].returncode == 0 and r['ctc'].returncode == 0})
+    ip = os.path.join(work, 'wf.items.ndjson')
+    vlib.write_ndjson(ip, items)
+    cfg = pipeline.write_cfg(work, 'wf', 'Spec', ['Reported', 'Classes'])
+    r = vlib.run_tlc('GrammarWF', cfg, {'VERIF_WF': ip}, 'C17_wf', workers=2, timeout=600)
+    if r.exit != 0 or r.errors:
+        raise Infra('GrammarWF failed: %s\n%s' % (r.errors[:3], r.out[-1500:]))
+    classes = {d['id']: d['wf'] for d in r.lines.get('WFCLASS', [])}
+    return r.lines.get('WF', []), items, classes, r
+
+
 def check_C17(tier, seed):
     import rx as rxl
     out = Outcome()
@@ -895,8 +958,15 @@ def check_C17(tier, seed):
             out.violations.append({'summary': {'pattern': pat_text(d['pat']), 'bytes': d['pat'], 'class': d['why'][0], 'library_accepts': d['valid']}, 'kind': 'rx', 'pattern': d['pat']})
         else:
             out.notes.append('syntax-layer problem judged by C03: %s %s' % (pat_text(d['pat']), d['why']))
+    wfprobs, wfitems, wfclasses, wfr = grammar_wf_check(tier, vlib.scratch('C17wf'))
+    for d in wfprobs:
+        it = [x for x in wfitems if x['id'] == d['id']][0]
+        out.violations.append({'summary': {'class': 'grammar well-formedness: ' + d['why'][0], 'variant': d['id'], 'declared_terms': it['terms'], 'declared_nterms': it['nterms'],
+                                           'rules': it['rules'], 'root': it['root'], 'library': it['threw']}, 'kind': 'wf'})
+    st += wfr.distinct; tr += wfr.generated
     out.violations = out.violations[:12]
     out.coverage = {'states': int(st), 'transitions': int(max(tr, 1)), 'traces_validated_against_impl': len([r for r in recs if r]),
+                    'grammar_variants(undeclared symbols / controls)': {k: ('well-formed' if v else 'ill-formed') for k, v in wfclasses.items()},
                     'texts': len(jobs), 'exhaustive_up_to_length': nmax, 'alphabet': [chr(c) if 32 < c < 127 else '\\x%02x' % c for c in alpha],
                     'classes(documented/unspecified/reject x library accepts)': {'%s,%s' % k: v for k, v in classes.items()},
                     'samples': [{'text': pat_text(r['pattern']), 'library_accepts': r['valid'], 'builder_calls': [c['op'] for c in r['calls']]} for r in recs[200:203] if r],
@@ -1862,6 +1932,10 @@ def replay(pid, path):
         print('library accepts:', recs[0] and recs[0]['valid'], ' ref mismatches:', len(ref.get('p0', [])), ' model mismatches:', len(model.get('p0', [])), ' syntax:', [d['why'] for d in probs])
         if crashed or ref or model or static or probs:
             out.violations.append(v)
+        return out
+    if v.get('kind') == 'wf':
+        print('re-run ./check C17 (regenerates the well-formedness translation units)')
+        out.violations.append(v)
         return out
     if v.get('kind') == 'helpers':
         print('re-run ./check C19 (regenerates the translation units from the TLC cases)')
